@@ -562,7 +562,7 @@ def runtime_agreement(ctx: Ctx, rng: random.Random, cases: list, first_tid: int)
                 (ctx.scratch / f"rhs_states_{q}.txt").write_text("\n".join(" ".join(repr(x) for x in v) for v in sts) + "\n")
             pr = subprocess.run([str(exe), str(ctx.scratch / f"rhs_states_{q}.txt")], capture_output=True, text=True, timeout=300)
             if pr.returncode != 0:
-                if "SHIM:" in pr.stderr:      # the stand-in's bounds check stopped the generated code: a finding, not a machinery failure
+                if "SHIM:" in pr.stderr or "runtime error: index" in pr.stderr:      # a bounds check stopped the generated code: a finding, not a machinery failure
                     outs["aborted"] = f"{solver}: {pr.stderr.strip()[-200:]}"
                     break
                 raise MachineryError(f"rhs driver failed ({solver}): {pr.stderr[-300:]}")
